@@ -211,14 +211,28 @@ fn main() {
     ctx.rule("case = (mode configuration, grammar map); per case: every Difficulty of the menu (5-10 settings x passed_objects in {unset,0,1,[N,]N+2}) x every score specification of the menu x every entry point (generic Performance::new/from with &map, map, DifficultyAttributes, PerformanceAttributes, mode attributes; attrs.performance(); mode-specific builders new/from/try_new) with the same Difficulty supplied again; for converts additionally the calculator of the *source* map (Performance and OsuPerformance), fully configured and only then switched with try_mode / mode_or_ignore; oracle = identical PerformanceAttributes, embedded difficulty attributes == one-shot difficulty; results of attribute-based runs are fed back in a second generation; non-trivial = reference pp > 0");
     ctx.assume("the converted map (Beatmap::convert) is 'the map' for converts; conversion consistency itself is C07's business");
 
-    let n_max = ctx.pick(3, 4);
-    let mut opts = UniOpts::new(n_max);
-    opts.gaps = vec![0, 150, 1000];
-    if ctx.quick() {
-        opts.poss = vec![vh::gen::PosK::Far];
+    // quick: N <= 3, far positions. thorough: N <= 3 with stacked and far positions plus N <= 4 with far positions, the rich
+    // Difficulty and score menus (N <= 4 over both positions with the rich menus takes 25 minutes and more: it does not fit
+    // the cap, the run would be reported as capped)
+    let mut passes = Vec::new();
+    {
+        let mut opts = UniOpts::new(3);
+        opts.gaps = vec![0, 150, 1000];
+        if ctx.quick() {
+            opts.poss = vec![vh::gen::PosK::Far];
+        }
+        opts.diff = vh::gen::DiffPreset::D3;
+        passes.extend(opts.build());
+        if !ctx.quick() {
+            let mut opts = UniOpts::new(4);
+            opts.gaps = vec![0, 150, 1000];
+            opts.poss = vec![vh::gen::PosK::Far];
+            opts.diff = vh::gen::DiffPreset::D3;
+            opts.tag = "/far-only".into();
+            passes.extend(opts.build());
+        }
     }
-    opts.diff = vh::gen::DiffPreset::D3;
-    for u in opts.build() {
+    for u in passes {
         ctx.universe(&u.name, u.total, |idx, l| {
             let (spec, map) = u.decode(idx);
             u.sample(l, idx, &spec, "Difficulty menu x score menu x ~20 entry points, 2 generations");
